@@ -1018,7 +1018,7 @@ package serf
 //@ end
 
 //@ func (r *QueryResponse) Finished() (fin bool)
-//@   logcalls
+//@   logcalls finished
 //@   requires receiver: r != nil
 //@   ensures closed_is_finished [C07]: r.closed ==> fin
 //@   # finished = closed, or the clock (read once, here) is past the deadline
@@ -1068,7 +1068,7 @@ package serf
 //@   # nothing is delivered unless the query was asked whether it is finished (closed, or past its deadline by the clock
 //@   # reading taken then) and said no
 //@   ensures nothing_after_deadline [C07]: mine && (sentN(q.respCh) != old(sentN(q.respCh)) || (q.ackCh != nil && sentN(q.ackCh) != old(sentN(q.ackCh)))) ==>
-//@       callN() > old(callN()) && callIs(old(callN()), "QueryResponse.Finished") && !callRet(old(callN()))
+//@       callNOf("finished") > old(callNOf("finished")) && !callRetOf("finished", old(callNOf("finished")))
 //@ end
 
 // ---------------------------------------------------------------- no network input crashes a node (C09)
